@@ -87,4 +87,43 @@ theorem extendFields_kept (cfg : Cfg) (N : List (String × Addr)) : ∀ (as : Li
     · exact (ih h0 h fr (fun x hx => hlt x (by simp [hx])) (fun x f' hx => hargs x f' (by simp [hx])) c hc).imp
         fun a1 ⟨f1, f1', h1, r⟩ => ⟨f1, f1', by simp [h1], r⟩
 
+
+/-! ### the rest of `extend_schema` leaves the member objects alone -/
+
+/-- everything `extend_schema` does after some point: the remaining types, the new types, the directives -/
+def extendRest (cfg : Cfg) (ext : Ext) (N Nin P : List (String × Addr)) (hr : Heap) (s : Schema) (l : List (String × Addr)) (h : Heap) : Heap :=
+  (buildNewDirs cfg N (extendDirs cfg N (buildNewTypes N P (extendAll cfg ext N Nin P hr h l) ext.newTypes) s.dirs).1 ext.newDirs).1
+
+/-- all writes of the rest go to placeholder addresses: every object allocated after the placeholders (in particular every
+    rebuilt field / argument / input field) is left alone -/
+theorem extendRest_frame (cfg : Cfg) (ext : Ext) (N Nin P : List (String × Addr)) (hr : Heap) (s : Schema) (psize : Nat)
+    (hP : ∀ n x, lookup P n = some x → x < psize)
+    (hinj : ∀ n n' x, lookup P n = some x → lookup P n' = some x → n = n') (l : List (String × Addr)) (hnd : (l.map (·.1)).Nodup)
+    (h : Heap) (hsz : psize ≤ h.size) :
+    FrameX (fun x => x < psize) h (extendRest cfg ext N Nin P hr s l h) := by
+  have f1 := (extendAll_spec cfg ext N Nin P hr hinj l h (fun n x hx => Nat.lt_of_lt_of_le (hP n x hx) hsz) hnd).1
+  have f2 := buildNewTypesX N P ext.newTypes (extendAll cfg ext N Nin P hr h l)
+  have f3 := extendDirsX (fun x => x < psize) cfg N s.dirs (buildNewTypes N P (extendAll cfg ext N Nin P hr h l) ext.newTypes)
+  have f4 := buildNewDirsX (fun x => x < psize) cfg N ext.newDirs (extendDirs cfg N (buildNewTypes N P (extendAll cfg ext N Nin P hr h l) ext.newTypes) s.dirs).1
+  simp only [extendRest]
+  exact (((f1.mono (fun x ⟨e, _, hx⟩ => hP e.1 x hx)).trans (f2.mono (fun x ⟨e, _, hx⟩ => hP e.1 x hx))).trans f3).trans f4
+
+/-- reading a member allocated after the placeholders gives the same object at the end of `extend_schema` -/
+theorem extendRest_read (cfg : Cfg) (ext : Ext) (N Nin P : List (String × Addr)) (hr : Heap) (s : Schema) (psize : Nat)
+    (hP : ∀ n x, lookup P n = some x → x < psize)
+    (hinj : ∀ n n' x, lookup P n = some x → lookup P n' = some x → n = n') (l : List (String × Addr)) (hnd : (l.map (·.1)).Nodup)
+    (h : Heap) (hsz : psize ≤ h.size) (c : Addr) (hc1 : psize ≤ c) (hc2 : c < h.size) :
+    (extendRest cfg ext N Nin P hr s l h).read c = h.read c :=
+  (extendRest_frame cfg ext N Nin P hr s psize hP hinj l hnd h hsz).2 c hc2 (Nat.not_lt.mpr hc1)
+
+/-- `extend` is: allocate the placeholders, then `extendRest` over all registered types -/
+theorem extend_heap_eq (cfg : Cfg) (ext : Ext) (s : Schema) (h : Heap) :
+    (extend cfg ext s h).1 =
+      extendRest cfg ext ((s.types.filter fun e => isProtected e.1) ++ (allocPlaceholders h ((s.types.filter fun e => !isProtected e.1).map (·.1) ++ ext.newTypes.map (·.1))).2)
+        (if cfg.extInputFieldExtended then (s.types.filter fun e => isProtected e.1) ++ (allocPlaceholders h ((s.types.filter fun e => !isProtected e.1).map (·.1) ++ ext.newTypes.map (·.1))).2
+          else s.types ++ ((s.types.filter fun e => isProtected e.1) ++ (allocPlaceholders h ((s.types.filter fun e => !isProtected e.1).map (·.1) ++ ext.newTypes.map (·.1))).2))
+        (allocPlaceholders h ((s.types.filter fun e => !isProtected e.1).map (·.1) ++ ext.newTypes.map (·.1))).2 h s s.types
+        (allocPlaceholders h ((s.types.filter fun e => !isProtected e.1).map (·.1) ++ ext.newTypes.map (·.1))).1 := by
+  simp only [extend, extendRest]
+
 end PyGql.Heap.Own
